@@ -225,6 +225,29 @@ def _run(chk):
                           dict(kind='movie', entry=entry, code=r, case=c02.jsonable(c2, labs), frame_numbers=numbers))
     if metas:
         chk.sample(dict(entry=metas[0][0], case=c02.jsonable(metas[0][1], metas[0][2])))
+    # coords_from_df itself against its model (Model/CoordsFromDf.v, proved equal to the declarative frame split)
+    from trackpy.linking.utils import coords_from_df
+    cterms, cmeta = [], []
+    for k in range(60 if chk.tier == 'quick' else 1500):
+        nrow = chk.rng.randint(1, 14)
+        t0 = chk.rng.choice([0, 0, 1, -4, 7])
+        frs = [t0 + chk.rng.choice([0, 0, 1, 1, 2, 3, 5]) for _ in range(nrow)]
+        if chk.rng.random() < 0.5:
+            frs[0] = t0
+        dfc = pd.DataFrame(dict(x=np.arange(nrow, dtype=float), frame=np.array(frs, dtype=np.int64)))
+        got = [[int(v) for v in arr[:, 0]] for t, arr in coords_from_df(dfc, ['x'], 'frame')]
+        rows = clist(["{| r_id := %s; r_frame := %s; r_pos := [] |}" % (cnat(i), common.cZ(f)) for i, f in enumerate(frs)])
+        cterms.append("(%s, %s)" % (rows, clist([clist([cnat(v) for v in g]) for g in got])))
+        cmeta.append((frs, got))
+    cres = common.coq_eval_lists(chk.work, "From TP Require Import Model.Assign Model.Link Model.LinkTable Model.CoordsFromDf.",
+                                 "fun c => match c with (rows, out) => check_cfd rows out end", cterms, tag='cfd')
+    for (frs, got), r in zip(cmeta, cres):
+        chk.count(('cfd', frs), len(set(frs)) >= 2)
+        chk.tally('coords_from_df vs model')
+        if r != 0:
+            chk.violation('coords_from_df: frames handed to the linker differ from the model',
+                          'coords_from_df on frame column %s yields row groups %s, not one group per frame number from min to max in input order' % (frs, got),
+                          dict(kind='cfd', frames=frs, got=got))
     chk.coverage['rule'] = ("lattice movies turned into tables with default/shuffled/duplicate/string/MultiIndex/'frame'-named indices, float frame column, "
                             "extra object columns, frame numbering with offsets and gaps; entry points link, link_df_iter, link_iter x every strategy x memory 0-3; "
                             "non-trivial = >= 6 features")
